@@ -114,7 +114,7 @@ Print Assumptions C08_top_graph_realised.
    Gql.Schema), Model/Results.v's resolve (C01: field nodes + bases) returns exactly the base list that
    Model/Fragments.v's resolve (C08: bases + unpacked names) returns - for every selection set, every nesting of
    inline fragments and fragment chains, conditional or not.  wf_doc: fragment types and the interfaces listed by
-   objects are types of the schema (Results.v raises KeyError otherwise). *)
+   objects and (since /repo 568dfd8) by interfaces are types of the schema (Results.v raises KeyError otherwise). *)
 Theorem C08_resolve_agrees_with_results : forall sch frags, wf_doc sch frags ->
   forall f under ss root unp fields mix unp',
   resolve f sch frags under ss root unp = Some (fields, mix, unp') -> known sch root ->
